@@ -88,6 +88,11 @@ func C03(r *vf.Run) {
 			var e *asm.Emitter
 			var call func(uint32)
 			fresh := func() {
+				// the part of the target not yet written is the caller's (a pre-filled hook area, code emitted
+				// earlier behind a reserved slot): it is filled with a pattern and looked at after every call
+				for i := range buf {
+					buf[i] = 0xC5
+				}
 				e = asm.NewEmitter(buf, false)
 				if g.Intn(2) == 0 {
 					e.SetBase(uint32(g.Intn(256))<<16 | uint32(g.Intn(0x8000)))
@@ -112,6 +117,11 @@ func C03(r *vf.Run) {
 				p := byte(e.Flags())
 				if pan := vf.Try(func() { call(arg) }); pan != nil {
 					r.Fail("legal-call-refused:"+m.Name, fmt.Sprintf("%s($%x) with tracked flags %02x panicked: %v", m.Name, arg, flags, pan), nil)
+					return
+				}
+				if end := e.Len(); buf[end] != 0xC5 || buf[end+1] != 0xC5 || buf[end+2] != 0xC5 || buf[end+3] != 0xC5 {
+					r.Fail("writes-behind-the-instruction:"+m.Name, fmt.Sprintf("%s($%x): target bytes behind the %d emitted ones were written: % x (were c5 c5 c5 c5)", m.Name, arg, end-n0, buf[end:end+4]), nil)
+					fresh()
 					return
 				}
 				got := e.Bytes()[n0:]
